@@ -1668,7 +1668,21 @@ fn run_store_case(out: &mut Out, seed: u64, base: &Path) {
                 };
                 let za = block_answer(&z, a, &h);
                 let fa = block_answer(&fresh, a, &h);
-                let ra = if row { block_expected(name, b).unwrap() } else { block_absent(name) };
+                // recomputed from the raw rows: the part's own row decides presence; extension and
+                // proposals are the row bytes themselves, the other parts are content-addressed
+                let body0 = ckb_types::packed::TransactionKey::new_builder().block_hash(h.clone()).build();
+                let ra = match name {
+                    "get_block_extension" => opt(z.get(COLUMN_BLOCK_EXTENSION, h.as_slice()).map(|r| digest(r.as_ref()))),
+                    "get_block_proposal_txs_ids" => opt(z.get(COLUMN_BLOCK_PROPOSAL_IDS, h.as_slice()).map(|r| digest(r.as_ref()))),
+                    _ => {
+                        let present = match name {
+                            "get_block_uncles" => z.get(COLUMN_BLOCK_UNCLE, h.as_slice()).is_some(),
+                            "get_block_txs_hashes" | "get_block_body" | "get_cellbase" => z.get(COLUMN_BLOCK_BODY, body0.as_slice()).is_some(),
+                            _ => row,
+                        };
+                        if present { block_expected(name, b).unwrap() } else { block_absent(name) }
+                    }
+                };
                 n_q += 4;
                 if wa != za || fa != za || ra != za {
                     diffs.push(format!("{} of block #{} ({:?}) after `{}` (step {}): warm({})={} cold={} fresh={} from-rows={}", name, i, st[i], did, step, warm_kind, short(&wa), short(&za), short(&fa), short(&ra)));
@@ -1693,7 +1707,16 @@ fn run_store_case(out: &mut Out, seed: u64, base: &Path) {
             let wa = cell_answers(&w, op);
             let za = cell_answers(&z, op);
             let fa = cell_answers(&fresh, op);
-            let ra = cell_expected(op, output, data, live);
+            let key = op.to_cell_key();
+            let (drow, hrow) = (z.get(COLUMN_CELL_DATA, &key).is_some(), z.get(COLUMN_CELL_DATA_HASH, &key).is_some());
+            let mut ra = cell_expected(op, output, data, live);
+            if live && !drow {
+                ra[6] = "data=none".into();
+            }
+            if live && !hrow {
+                ra[7] = "snapshot.data_hash=none".into();
+                ra[8] = "txn.data_hash=none".into();
+            }
             n_q += 4 * wa.len() as u64;
             if wa != za || fa != za || ra != za {
                 let k = (0..wa.len()).find(|k| wa[*k] != za[*k] || fa[*k] != za[*k] || ra[*k] != za[*k]).unwrap();
